@@ -4,7 +4,7 @@ from props import standard_check
 
 def check_C01(tier, seed):
     return standard_check(
-        "C01", tier, seed, "col", ["c01_colbuf"],
+        "C01", tier, seed, "col", ["c01_colbuf", "c01_api"],
         trusted=[],
         assumptions=[],
         rule="")
